@@ -190,6 +190,7 @@ STORAGE_EVENTS_PREFIX = ("W", "R")
 
 # branch events: (regex over the resolved place/callee text of a switch operand, label)
 BRANCH_RULES = [
+    (r"verify_upgrade\(.*as Continue\)\.0: bool", "upgrade_consumed_block_root"),
     (r"Option::<Vec<u8>>::is_none\(", "value.is_none"),
     (r"^\(?move \(Lt\(copy _2, move \(copy \(\(\(\(\*_1\)\.\d+: oplog::header::Header\)\.\d+: oplog::header::HeaderHints\)\.\d+: u64\)", "start<contig"),
     (r"PartialKeypair\)\.1: std::option::Option<ed25519_dalek::SigningKey>", "secret"),
@@ -298,6 +299,9 @@ class Model:
                         evs.append("set:header=outcome.header")
                     else:
                         evs.append("set:header=other")
+                m = re.match(r"^(_\d+) = move (_\d+);$", s)
+                if m and any(re.search(r"^Option::<(common::)?node::Node>::None$", d) for d in self.defs.get(m.group(2), [])):
+                    evs.append("block_root:=None")
                 if re.search(r"= Option::<(common::peer::)?Proof>::None;$", s):
                     evs.append("proof:None")
                 if re.search(r"= (common::error::)?HypercoreError::NotWritable;$", s):
@@ -713,6 +717,12 @@ def specs():
          Table({(0, "Hypercore::create_valueless_proof"): 1, (1, "Hypercore::get"): 2, (2, "value.is_none:nz"): 3, (3, "proof:None"): 4,
                 (2, "value.is_none:0"): 5, (5, "into_proof"): 6, (1, "into_proof"): 6},
                ok={4, 6}, err={0, 1, 2}, alpha=[])),
+    ]
+    # ---- C04: the block's root stays "to be compared with the replica's own node" unless the upgrade consumed it
+    S["C04"] = [
+        ("merkle_tree::verify_proof", "verify_proof: the pending comparison of the block/hash root with the replica's own node is dropped (set to None) only on the branch where verify_upgrade reports that the upgrade consumed that root -- a proof that merely carries a valid upgrade does not switch the block check off",
+         Table({(0, "upgrade_consumed_block_root:nz"): 1, (1, "block_root:=None"): 0, (0, "upgrade_consumed_block_root:0"): 0},
+               ok={0}, err={0, 1}, alpha=[])),
     ]
     # ---- C01: reads are gated by the bitfield
     S["C01"] = [
